@@ -28,9 +28,13 @@ Judge(e) ==
     THEN [ok |-> FALSE, info |-> [id |-> e.id, genbug |-> TRUE, panic |-> "", record |-> "", file |-> "", read |-> "", readmsg |-> ""]]
   ELSE
   LET track == IF e.ti >= 1 /\ e.ti <= Len(e.tracks) THEN e.tracks[e.ti] ELSE <<>>
-      want == IF e.via = "smf" /\ e.extra # "none" THEN 2 ELSE 1
+      want == IF e.via = "smf" /\ e.extra # "none" THEN {2}
+              \* smf.RecordTo stopped a second time after a failed save: whether the recorded track is then in the file once
+              \* or twice is left open (the library adds it at every stop); every track must be the recording
+              ELSE IF e.via = "file" /\ e.extra = "retry" THEN {1, 2} ELSE {1}
       rec == IF track = <<>> THEN "the SMF holds no recorded track"
-             ELSE IF Len(e.tracks) # want THEN "the SMF does not hold the expected number of tracks"
+             ELSE IF Len(e.tracks) \notin want THEN "the SMF does not hold the expected number of tracks"
+             ELSE IF \E i \in 1..Len(e.tracks) : e.via = "file" /\ e.tracks[i] # track THEN "the file holds a track that is not the recording"
              ELSE RecordWhy(track, e.chunks, e.res, e.bpm100)
       fil == IF e.werr # "" THEN "WriteTo failed"
              ELSE IF e.size # Len(e.bytes) THEN "WriteTo reports a wrong size"
